@@ -844,6 +844,28 @@ class Item:
         self.toks[c + len(ins)].ws = "\n"
         self.log.append({"kind": "contract", "at": "loop-end:%d" % k, "text": text.strip()})
 
+    def normalise_wild_closure_params(self):
+        """`|_| e` -> `|_e| e` (after the declared edits): Verus rejects `_` as a closure parameter; naming an unused
+        parameter is an identity of the language.  Keeps a change that introduces such a closure decidable."""
+        T = self.toks
+        n = 0
+        for i in range(1, len(T) - 2):
+            if T[i].s == "|" and T[i + 1].s == "_" and T[i + 2].s == "|" and T[i - 1].s in _CLOSURE_PREV:
+                T[i + 1].s = "_e"
+                n += 1
+        if n:
+            self.log.append({"kind": "pattern-norm", "match": "| _ |", "replace": "| _e |", "count": n,
+                             "why": "Verus rejects `_` as a closure parameter; an unused parameter is named"})
+
+    def prepend_stmts(self, text):
+        """source statements (immutable `let`s of the enclosing function a lifted block refers to) at the start of the body"""
+        o = self.body_open()
+        ins = tokenize("\n" + text + "\n", line0=self.line)
+        self.toks[o + 1:o + 1] = ins
+        self.log.append({"kind": "auto-let", "text": text.strip(),
+                         "why": "the lifted block refers to an immutable local of the enclosing function that is not a declared parameter; "
+                                "its `let` statement is copied in front of the block (re-evaluated at block entry: assumes a pure initializer)"})
+
     def insert_after_loop(self, k, text):
         """insert right after the closing brace of loop k (a statement position: a loop used as a statement)"""
         ls = self.loops()
@@ -1420,6 +1442,38 @@ def find_const(repo, relpath, name):
                 txt = "const" + txt[len("static"):]
             return "pub " + txt
     return None
+
+
+def find_outer_let(repo, relpath, steps, name, before_line):
+    """the last `let NAME = EXPR;` / `let NAME: T = EXPR;` (immutable binding, any nesting depth) of the located
+    function that ends before source line `before_line`, or None.  Used to follow a reference from a lifted block
+    to a local of the enclosing function that is not among the declared parameters (a local a change introduced)."""
+    try:
+        item = extract(repo, relpath, steps)
+    except (OSError, LostAnchor):
+        return None
+    T = item.toks
+    best = None
+    for i in range(len(T) - 2):
+        if T[i].s == "let" and T[i + 1].s == name and T[i + 2].s in ("=", ":") and T[i].line < before_line:
+            d = 0
+            j = i
+            while j < len(T):
+                t = T[j].s
+                if t in OPEN:
+                    d += 1
+                elif t in CLOSE:
+                    d -= 1
+                    if d < 0:
+                        break
+                elif t == ";" and d == 0:
+                    break
+                j += 1
+            if j < len(T) and T[j].s == ";" and T[j].line < before_line:
+                seg = [Tok(t.ws, t.s, t.line) for t in T[i:j + 1]]
+                seg[0].ws = ""
+                best = render(seg).strip()
+    return best
 
 
 _CLOSURE_PREV = {"(", ",", "=", "move", "{", ";", "return", "=>", "[", ":", "&&", "||", "!", "else"}
